@@ -34,7 +34,8 @@ REQUIRED = {"line.selects_entity_scenarios": {"quick": 8000, "thorough": 500000}
             "locparser.roundtrip": {"quick": 500, "thorough": 20000}, "name.selects_matching": {"quick": 150, "thorough": 6000},
             "setup_teardown.never_skipped": {"quick": 40, "thorough": 2000}}
 REQUIRED_SEEN = {"entity_kind_addressed": ["feature", "rule", "outline", "row", "scenario", "line0", "other_line", "beyond_end"],
-                 "argument_list_shape": ["DL", "LD", "LL", "DLD"]}
+                 "argument_list_shape": ["DL", "LD", "LL", "DLD"], "wildcard_listfile_place": ["working_directory", "sub_directory"],
+                 "name_selection_shape": ["pattern_matches_the_empty_name_of_an_untitled_scenario"]}
 EXHAUSTIVE = True
 EXHAUSTIVE_SCOPE = "every line number 0..last+2 of every generated document"
 NSHARDS = {"quick": 16, "thorough": 16}
@@ -89,6 +90,21 @@ class Doc(object):
                 twins = rng.sample(plain, rng.choice([2, 2, 3]) if len(plain) >= 3 else 2)
                 for it in twins:
                     it["name"] = "Stwin same title"
+        self.has_unnamed = False
+        if rng.random() < 0.3:
+            # scenarios without a title ("Scenario:"): their name is the empty string
+            plain = []
+
+            def collect2(c):
+                for it in c["items"]:
+                    if it["kind"] == "rule":
+                        collect2(it)
+                    elif it["kind"] == "scenario" and it["name"] != "Stwin same title":
+                        plain.append(it)
+            collect2(a)
+            for it in rng.sample(plain, min(len(plain), rng.choice([1, 2]))):
+                it["name"] = ""
+                self.has_unnamed = True
         self.abstract = a
         self.fname = fname
         self.text, self.lines = render_feature(a, rng, layout=rng.random() < 0.6, language_header=(lang if lang != "en" else None))
@@ -280,6 +296,30 @@ def run(spec, mon):
                                       [(os.path.normpath(l.filename), l.line) for l in locs2], lambda: dict(listfile=rel))
                         except Exception as ex:
                             mon.check("listfile.same_as_direct", False, lambda: dict(listfile=rel, error=repr(ex)))
+                    # ---- a list file with WILDCARD entries (documented), in the working directory or in a sub-directory: the entries --
+                    # wildcards included -- are relative to the list file's own directory
+                    if rng.random() < 0.4:
+                        listname = rng.choice(["wild.txt", "features/wild.txt", "features/sub/wild.txt"])
+                        ldir = os.path.dirname(listname) or "."
+                        present = sorted(set(dd.fname for dd in docs))
+                        pattern_abs = rng.choice(["features/doc%d_*.feature" % d, "features/*.feature", "features/doc%d_[01].feature" % d, "features/doc%d_?.feature" % d])
+                        entry = os.path.relpath(pattern_abs, ldir)
+                        import fnmatch
+                        want_files = [x for x in present if fnmatch.fnmatchcase(x, pattern_abs) and os.path.dirname(x) == "features"]
+                        first = rng.choice([None, present[-1] + ":1"])
+                        content = ([os.path.relpath(first.split(":")[0], ldir) + ":1"] if first else []) + [entry]
+                        with open(listname, "w", encoding="utf-8") as fh:
+                            fh.write("\n".join(content) + "\n")
+                        try:
+                            locs4 = collect_feature_locations(["@" + listname])
+                            got4 = sorted(set(os.path.normpath(l.filename) for l in locs4))
+                            want4 = sorted(set(want_files + ([first.split(":")[0]] if first else [])))
+                            mon.check("listfile.wildcard_entries_relative_to_the_list_file", got4 == want4,
+                                      lambda: dict(listfile=listname, content=content, got=got4, want=want4))
+                            mon.seen("wildcard_listfile_place", "working_directory" if ldir == "." else "sub_directory")
+                        except Exception as ex:
+                            mon.check("listfile.wildcard_entries_relative_to_the_list_file", False,
+                                      lambda: dict(listfile=listname, content=content, error=repr(ex)))
                     # ---- list files MIXED with direct locations on one command line (any position, also two list files) ----
                     if len(texts) >= 2 and rng.random() < 0.6:
                         i = rng.randint(0, len(texts) - 1)
@@ -328,7 +368,11 @@ def run(spec, mon):
                 pats = []
                 for _k in range(rng.choice([1, 1, 2])):
                     nm = rng.choice(names_all)
-                    pats.append(rng.choice([re.escape(nm.split(" ")[0]) + r"\b", r"^S\d", r"\d+ ", r"O\d+.*@1\.1", r"[13579] ", re.escape(nm[:6]), r"@\d\.2", "zzz-nomatch"]))
+                    pats.append(rng.choice([re.escape(nm.split(" ")[0]) + r"\b", r"^S\d", r"\d+ ", r"O\d+.*@1\.1", r"[13579] ", re.escape(nm[:6]), r"@\d\.2", "zzz-nomatch",
+                                            # patterns that (also) match the EMPTY name of a scenario without title
+                                            r"^$", r".*", r"x*", r"^(?!S)", r"^(?!.*\d)"]))
+                if doc.has_unnamed and any(re.search(p_, "") for p_ in pats):
+                    mon.seen("name_selection_shape", "pattern_matches_the_empty_name_of_an_untitled_scenario")
                 want = [n for n in names_all if re.search("|".join(pats), n)]
                 entered = []
 
